@@ -97,6 +97,19 @@ class HookFile(io.BytesIO):
         return io.BytesIO.read(self, n)
 
 
+class _Interrupt(BaseException):
+    """What Ctrl-C, SystemExit or a cancelled task look like to a load or save in progress."""
+
+
+def _interrupt():
+    raise _Interrupt()
+
+
+class _RaisingWriter:
+    def write(self, b):
+        raise _Interrupt()
+
+
 class _Label(str):
     def __str__(self):
         return 'Label.' + str.upper(self)
@@ -113,7 +126,7 @@ def build_load(cs, fault, at, n=3):
     """-> (list of byte strings to try, realised?)"""
     text = TEXTS[cs].encode(cs)
     events = []
-    realised = fault in ('none', 'truncate', 'unknown_charset')
+    realised = fault in ('none', 'truncate', 'unknown_charset', 'interrupt')
     for i in range(1, n + 1):
         ev = (b'\x00\xff\x03' if i == 2 else b'\x00\xff\x01') + vlq(len(text)) + text
         if fault == 'bad_data_byte' and at == i:
@@ -163,12 +176,13 @@ def run_call(kind, cs, fault, at, children=(), outer='latin1'):
             ok = True
             inside = None
             try:
-                if children:
-                    f = HookFile(data, {offsets[pc]: (lambda pc=pc: nested(pc)) for pc, _ in children})
-                else:
-                    f = io.BytesIO(data)
+                hooks = {offsets[pc]: (lambda pc=pc: nested(pc)) for pc, _ in children}
+                if fault == 'interrupt':
+                    # the reader is interrupted when it arrives at event `at` (0: at its first read)
+                    hooks[0 if at == 0 else offsets[at - 1]] = _interrupt
+                f = HookFile(data, hooks) if hooks else io.BytesIO(data)
                 mid = mido.MidiFile(file=f, charset=use_cs)
-            except Exception as exc:
+            except (Exception, _Interrupt) as exc:
                 ok = False
                 inside = elsewhere()       # while the exception (and its traceback) is alive
                 del exc
@@ -217,7 +231,7 @@ def run_call(kind, cs, fault, at, children=(), outer='latin1'):
             e = elsewhere()
             return [('charset-leak/constructor', e)] if e else probs
         tr = mido.MidiTrack()
-        realised = fault in ('none', 'unknown_charset')
+        realised = fault in ('none', 'unknown_charset', 'interrupt')
         for i in range(1, 4):
             # (the third text is a str subclass with its own __str__, e.g. a str-valued Enum member:
             # its characters are the text)
@@ -249,10 +263,12 @@ def run_call(kind, cs, fault, at, children=(), outer='latin1'):
                 del tr[-1]                     # (its end_of_track)
             except Exception as e:
                 probs.append(('migrate-raises/' + cs, repr(e)))
-        if children:
+        if children or (fault == 'interrupt' and at > 0):
             def gen(msgs=list(tr)):
                 for k, m in enumerate(msgs):
                     nested(k)
+                    if fault == 'interrupt' and at == k + 1:
+                        raise _Interrupt()      # the track is produced lazily and its producer is interrupted
                     yield m
                 nested(len(msgs))
             mid.tracks.append(gen())
@@ -262,7 +278,7 @@ def run_call(kind, cs, fault, at, children=(), outer='latin1'):
             mid.type = 0
             mid.tracks.append(mido.MidiTrack())       # fails before any event is written
             realised = True
-        if variant == 2 and not children:
+        if variant == 2 and not children and fault != 'interrupt':
             import copy
             import pickle
             k = (at + len(cs)) % 3
@@ -270,11 +286,11 @@ def run_call(kind, cs, fault, at, children=(), outer='latin1'):
                 mid = copy.copy(mid) if k == 0 else copy.deepcopy(mid) if k == 1 else pickle.loads(pickle.dumps(mid))
             except Exception as e:
                 probs.append(('duplicate-raises/%s' % type(e).__name__, 'copy/deepcopy/pickle of a MidiFile raised %r' % (e,)))
-        buf = io.BytesIO()
+        buf = io.BytesIO() if not (fault == 'interrupt' and at == 0) else _RaisingWriter()
         ok = True
         inside = None
         try:
-            if variant == 1 and not children:
+            if variant == 1 and not children and fault != 'interrupt':
                 # a MidiFile is a context manager (it closes nothing and changes nothing on entry)
                 with mid as same:
                     inside_with = elsewhere() if same is mid else 'with-statement yields another object'
@@ -284,7 +300,7 @@ def run_call(kind, cs, fault, at, children=(), outer='latin1'):
                     probs.append(('charset-leak/with-block', 'inside `with MidiFile(charset=%r)`: %s' % (use_cs, inside_with)))
             else:
                 mid.save(file=buf)
-        except Exception as exc:
+        except (Exception, _Interrupt) as exc:
             ok = False
             inside = elsewhere()           # while the exception (and its traceback) is alive
             del exc
